@@ -334,22 +334,22 @@ theorem reducer_ops (W : Nat) (r : Ring) (hwf : r.WF W) (x y : Nat) (hx : Valid 
     have : r.m - u + u = r.m := by omega
     rw [this, Nat.mod_self]
 
--- ---------------------------------------------------------------- non-vacuity and recorded findings
+-- ---------------------------------------------------------------- non-vacuity and regression theorems
 
 /-- a 3-word modulus with a 3-bit normalisation shift and a negative operand meet the hypotheses -/
 example : ∃ r, Ring.new 64 0 (2 ^ 188 + 12345) = .ok r ∧ r.kind = .large ∧ r.k = 3 ∧ r.n = 3 ∧
     (reduceInt 64 r (-5)).residue = 2 ^ 188 + 12340 := by
   refine ⟨_, rfl, rfl, by decide, by decide, by decide⟩
 
-/-- FINDING (pow in the ring with one element): the code's `ReducedWord::one` is `1 << shift`, which
-    for `m = 1` is the normalised divisor itself — not `Valid`; its residue is `1`, not `0`. -/
+/-- REGRESSION (pow in the ring with one element, fixed in /repo d3d05f5): `ReducedWord::one` used to be
+    `1 << shift`, which for `m = 1` is the normalised divisor itself — not `Valid`; residue `1`, not `0`. -/
 theorem one_asIs_counterexample :
     ∃ r, Ring.new 64 0 1 = .ok r ∧ ¬ Valid r (oneRawAsIs r) ∧ oneRawAsIs r / 2 ^ r.k = 1 ∧
       Valid r (oneRaw r) := by
   refine ⟨_, rfl, by decide, by decide, by decide⟩
 
-/-- FINDING (`Reducer::add`/`dbl` on multi-word rings): the code's `check` accepts `target == M`
-    (`is_le`), so a sum that is exactly the normalised modulus is returned unreduced. -/
+/-- REGRESSION (`Reducer::add`/`dbl` on multi-word rings, fixed in /repo 1b55f20): `check` used to accept
+    `target == M` (`is_le`), so a sum that is exactly the normalised modulus was returned unreduced. -/
 theorem reducer_add_asIs_counterexample :
     ∃ r, Ring.new 64 0 (2 ^ 188) = .ok r ∧
       rAddAsIs 64 r (1 * 2 ^ r.k) ((2 ^ 188 - 1) * 2 ^ r.k) = r.M ∧
